@@ -8,6 +8,14 @@ Read from the source text:
   * that an out-of-range level leads to `return Err(` (and not to a panic / clamp): the text between the
     match and the second `match value` must contain `if !level_in_range {` followed by `return Err(`.
 Anything else (another arm shape, a wildcard arm, a missing variant) degrades the table.
+
+Default compression (C17 / C09, coverage gap G6), from the same file and Cargo.toml:
+  * the arms of `impl From<CompressionType> for CompressionWithLevel` (`CompressionType::Gzip => CompressionWithLevel::Gzip(9)`):
+    `defaultOfType` = (CompressionType index, CompressionWithLevel index, level);
+  * `impl Default for CompressionWithLevel`: a sequence of `#[cfg(feature = "F")] return CompressionType::X.into();`
+    followed by the fall-back `CompressionType::Y.into()`; a feature is identified by the CompressionType variant it gates
+    in `pub enum Compressor` (`#[cfg(feature = "gzip-compression")] Gzip(..)`): `defaultPreference` = (gated type, returned type);
+  * the `default = [..]` feature list of Cargo.toml: `cargoDefaultFeatureTypes` = the types whose feature is on by default.
 """
 import re
 from .common import read, emit, degraded
@@ -91,6 +99,8 @@ def generate():
     if len(variants) < 2:
         degraded.append((T, f"only {len(variants)} variants found"))
 
+    defaults_body = _defaults(src, idx)
+
     body = "namespace RpmVerif.Gen\n"
     body += "/-- variants of `enum CompressionWithLevel` in declaration order (names for display / the wire only) -/\n"
     body += "def levelVariants : List String := [" + ", ".join(f'"{v}"' for v in variants) + "]\n"
@@ -102,5 +112,96 @@ def generate():
         f"({idx[v]}, {accepted[v][0]}, {accepted[v][1]})  /- {v} -/" for v in variants if v in accepted) + "]\n"
     body += "/-- an out-of-range level takes the `return Err(..)` path -/\n"
     body += f"def levelOutOfRangeIsErr : Bool := {'true' if errors_out else 'false'}\n"
+    body += defaults_body
     body += "end RpmVerif.Gen\n"
     emit(T, body)
+
+
+def _type_variants(src):
+    enum = _block(src, r"pub\s+enum\s+CompressionType\s*\{")
+    if enum is None:
+        return []
+    body = re.sub(r"//[^\n]*", "", enum)
+    body = re.sub(r"#\[[^\]]*\]", "", body)
+    return [v.strip() for v in body.split(",") if re.fullmatch(r"[A-Za-z_]\w*", v.strip())]
+
+
+def _defaults(src, widx):
+    """tables for `From<CompressionType> for CompressionWithLevel` and `Default for CompressionWithLevel`"""
+    tvars = _type_variants(src)
+    tidx = {v: i for i, v in enumerate(tvars)}
+    if len(tvars) < 2:
+        degraded.append((T, "enum CompressionType not found (default tables)"))
+    # --- From<CompressionType> ---
+    of_type = []
+    frm = _block(src, r"impl\s+From<CompressionType>\s+for\s+CompressionWithLevel\s*\{")
+    if frm is None:
+        degraded.append((T, "impl From<CompressionType> for CompressionWithLevel not found"))
+    else:
+        arms_txt = re.sub(r"//[^\n]*", "", _block(frm, r"match\s+value\s*\{") or "")
+        seen = set()
+        for arm in [a.strip().rstrip(",").strip() for a in arms_txt.split(",\n") if a.strip()]:
+            am = re.fullmatch(r"CompressionType::(\w+)\s*=>\s*(?:CompressionWithLevel|Self)::(\w+)(?:\(\s*(-?[\d_]+)\s*\))?", arm)
+            if not am or am.group(1) not in tidx or am.group(2) not in widx:
+                degraded.append((T, f"From<CompressionType> arm not understood: {arm!r}"))
+                continue
+            seen.add(am.group(1))
+            of_type.append((tidx[am.group(1)], widx[am.group(2)], None if am.group(3) is None else _int(am.group(3)), am.group(1)))
+        for v in tvars:
+            if v not in seen:
+                degraded.append((T, f"no From<CompressionType> arm scraped for {v}"))
+    # --- which feature gates which type: `pub enum Compressor { #[cfg(feature = "F")] V(..), … }` ---
+    gate = {}
+    comp = _block(src, r"pub\s+enum\s+Compressor\s*\{")
+    if comp is None:
+        degraded.append((T, "enum Compressor not found"))
+    else:
+        comp = re.sub(r"//[^\n]*", "", comp)
+        for fm in re.finditer(r'#\[cfg\(feature\s*=\s*"([^"]+)"\)\]\s*(\w+)\s*\(', comp):
+            if fm.group(2) in tidx:
+                gate[fm.group(1)] = tidx[fm.group(2)]
+    # --- Default ---
+    pref, fallback = [], None
+    dflt = _block(src, r"impl\s+Default\s+for\s+CompressionWithLevel\s*\{")
+    fn = _block(dflt or "", r"fn\s+default\s*\(\s*\)\s*->\s*Self\s*\{")
+    if fn is None:
+        degraded.append((T, "impl Default for CompressionWithLevel not found"))
+    else:
+        fn = re.sub(r"//[^\n]*", "", fn)
+        pos = 0
+        for fm in re.finditer(r'#\[cfg\(feature\s*=\s*"([^"]+)"\)\]\s*return\s+CompressionType::(\w+)\.into\(\)\s*;', fn):
+            if fn[pos:fm.start()].strip():
+                degraded.append((T, f"unexpected text in Default::default: {fn[pos:fm.start()].strip()!r}"))
+            pos = fm.end()
+            if fm.group(1) not in gate or fm.group(2) not in tidx:
+                degraded.append((T, f"Default::default: feature {fm.group(1)} / type {fm.group(2)} not understood"))
+                continue
+            pref.append((gate[fm.group(1)], tidx[fm.group(2)], fm.group(1)))
+        tail = re.fullmatch(r"CompressionType::(\w+)\.into\(\)", fn[pos:].strip())
+        if tail and tail.group(1) in tidx:
+            fallback = tidx[tail.group(1)]
+        else:
+            degraded.append((T, f"fall-back of Default::default not understood: {fn[pos:].strip()!r}"))
+    # --- Cargo.toml default features ---
+    cargo = read("Cargo.toml")
+    dm = re.search(r"^default\s*=\s*\[(.*?)\]", cargo, re.S | re.M)
+    default_types = []
+    if not dm:
+        degraded.append((T, "`default = [..]` not found in Cargo.toml"))
+    else:
+        for f in re.findall(r'"([^"]+)"', dm.group(1)):
+            if f in gate:
+                default_types.append(gate[f])
+    b = "/-- `impl From<CompressionType> for CompressionWithLevel`: (CompressionType index, CompressionWithLevel index, level);\n"
+    b += "    CompressionType variants in declaration order: " + ", ".join(f"{i} = {v}" for i, v in enumerate(tvars)) + " -/\n"
+    b += "def defaultOfType : List (Nat × Nat × Option Int) := [" + ", ".join(
+        f"({t}, {w}, {'none' if l is None else 'some (' + str(l) + ')'})  /- {n} -/" for t, w, l, n in of_type) + "]\n"
+    b += "/-- the cargo feature that compiles a CompressionType's codec in: (CompressionType index, feature name) -/\n"
+    b += "def compressionFeature : List (Nat × String) := [" + ", ".join(f'({t}, "{f}")' for f, t in sorted(gate.items(), key=lambda kv: kv[1])) + "]\n"
+    b += "/-- `impl Default for CompressionWithLevel`, in source order: (type whose feature is tested, type returned when it is on) -/\n"
+    b += "def defaultPreference : List (Nat × Nat) := [" + ", ".join(f"({g}, {t})  /- {f} -/" for g, t, f in pref) + "]\n"
+    b += "/-- … and the type returned when none of them is on (a placeholder ≥ the number of variants when not understood) -/\n"
+    b += f"def defaultFallback : Nat := {fallback if fallback is not None else 99}\n"
+    b += "/-- the CompressionTypes whose feature is in Cargo.toml's `default = [..]` -/\n"
+    b += "def cargoDefaultFeatureTypes : List Nat := [" + ", ".join(str(t) for t in default_types) + "]\n"
+    return b
